@@ -3,6 +3,7 @@ package checks
 import (
 	"context"
 	"fmt"
+	ros "github.com/risor-io/risor/os"
 	goos "os"
 	"reflect"
 	"regexp"
@@ -583,18 +584,22 @@ func runC09(rc *fw.RunCtx) {
 	}
 	var denv []*denvEval
 	var hostMapCheck map[string]any
+	var envCheck map[string]string
 	if g.Chance(1, 3) {
 		// one host map handed to every configuration (each copies what it needs)
+		// one environment template handed to every evaluation's own VirtualOS
+		envTemplate := map[string]string{"MODE": "prod", "REGION": "eu"}
+		envCheck = envTemplate
 		hostMap := map[string]any{"hostval": 41}
 		hostMapCheck = hostMap
-		const plain = `[math.sqrt(16.0), strings.repeat("ab", 2), math.abs(-3), math.PI > 3.1, hostval + 1, rand.intn(10) < 10, rand.float() < 1.0, len(rand.shuffle([1, 2, 3]))]`
+		const plain = `os.setenv("TOKEN", "mine"); [math.sqrt(16.0), strings.repeat("ab", 2), math.abs(-3), math.PI > 3.1, hostval + 1, rand.intn(10) < 10, rand.float() < 1.0, len(rand.shuffle([1, 2, 3])), os.getenv("MODE"), os.getenv("TOKEN"), len(os.environ())]`
 		for i, n := 0, g.Range(1, 3); i < n; i++ {
-			denv = append(denv, &denvEval{src: plain, want: `[4, "abab", 3, true, 42, true, true, 3]`, opts: []risor.Option{risor.WithGlobals(hostMap), risor.WithConcurrency()}, out: &EvalOutcome{}})
+			denv = append(denv, &denvEval{src: plain, want: `[4, "abab", 3, true, 42, true, true, 3, "prod", "mine", 3]`, opts: []risor.Option{risor.WithGlobals(hostMap), risor.WithConcurrency(), risor.WithOS(ros.NewVirtualOS(ctx, ros.WithEnvironment(envTemplate)))}, out: &EvalOutcome{}})
 		}
 		sandbox := &denvEval{
-			src:  `[try(func() { return math.sqrt(4.0) }, func(e) { return "denied" }), try(func() { return strings.repeat("x", 2) }, func(e) { return "denied" }), math.abs(-3), math.PI, added]`,
-			want: `["denied", "denied", 3, 3, 5]`,
-			opts: []risor.Option{risor.WithGlobals(hostMap), risor.WithConcurrency(), risor.WithoutGlobals("math.sqrt", "strings.repeat", "hostval"), risor.WithGlobalOverride("math.PI", 3), risor.WithGlobal("added", 5)},
+			src:  `os.setenv("MODE", "debug"); os.setenv("TOKEN", "secret-of-the-sandbox"); [try(func() { return math.sqrt(4.0) }, func(e) { return "denied" }), try(func() { return strings.repeat("x", 2) }, func(e) { return "denied" }), math.abs(-3), math.PI, added, os.getenv("MODE")]`,
+			want: `["denied", "denied", 3, 3, 5, "debug"]`,
+			opts: []risor.Option{risor.WithGlobals(hostMap), risor.WithConcurrency(), risor.WithOS(ros.NewVirtualOS(ctx, ros.WithEnvironment(envTemplate))), risor.WithoutGlobals("math.sqrt", "strings.repeat", "hostval"), risor.WithGlobalOverride("math.PI", 3), risor.WithGlobal("added", 5)},
 			out:  &EvalOutcome{},
 		}
 		at := g.Intn(len(denv) + 1)
@@ -707,6 +712,10 @@ func runC09(rc *fw.RunCtx) {
 		}
 	}
 	if len(denv) > 0 {
+		if len(envCheck) != 2 || envCheck["MODE"] != "prod" {
+			rc.Violate("interference/host-map-modified", "the environment map the host passed to every VirtualOS was modified by the evaluations: %v", envCheck)
+			return
+		}
 		if len(hostMapCheck) != 1 || hostMapCheck["hostval"] != 41 {
 			rc.Violate("interference/host-map-modified", "the map the host passed to WithGlobals was modified by the configurations built from it: %v entries", len(hostMapCheck))
 			return
